@@ -719,7 +719,11 @@ func summarise(p *Prog, fn *ssa.Function) *fnSummary {
 				meet(&ifN, facts)
 			case knownNonNilError(v):
 			default:
-				extra := []Fact{eqFact(fl.K.Key(v), "nil")}
+				vk := fl.K.Key(v)
+				if facts[Fact{"!=", minStr(vk, "nil"), maxStr(vk, "nil")}] {
+					break // `if err != nil { return err }`: this return never delivers nil
+				}
+				extra := []Fact{eqFact(vk, "nil")}
 				extra = append(extra, fl.summaryFacts(v, "nil")...)
 				meet(&ifN, with(facts, extra))
 			}
